@@ -1034,6 +1034,12 @@ func (w *w1World) setup() error {
 				reply.Options.ExpireAt = time.Now().Unix() + 3600
 				reply.ClientSideRefresh = true
 			}
+			if chHas(e.Channel, 'Y') {
+				// expires soon, refreshed on the SERVER side (OnSubRefresh prolongs it),
+				// whatever the refresh mode of the connection is
+				reply.Options.ExpireAt = time.Now().Unix() + 2
+				reply.ClientSideRefresh = false
+			}
 			if chHas(e.Channel, 'X') {
 				// expires almost at once; it stays a live subscription until the periodic
 				// check (presence tick + ClientExpiredSubCloseDelay) removes it
@@ -1642,7 +1648,7 @@ var w1Flavours = map[string][]string{
 	"C08": {"_", "p_", "ejJ_"},
 	"C09": {"_", "p_", "ejJ_", "r_", "x_", "x_"},
 	"C11": {"_", "_", "p_", "jJ_"},
-	"C36": {"_", "e_"},
+	"C36": {"_", "e_", "Y_"},
 	"C26": {"_", "p_", "_", "e_"},
 	"C43": {"h_", "ph_", "eh_", "rh_"},
 	"C02": {"r_", "r_", "rf_"},
@@ -2066,6 +2072,15 @@ func w1Gen(c *simrt.Choice, prop, tier string) any {
 	}
 	if prop == "C36" {
 		cfg.ExpiredSubMs = []int{0, 500, 1000}[c.Intn(3)]
+		for _, ch := range sc.Channels {
+			if chHas(ch, 'Y') {
+				// the subscription expiry check runs on the presence tick
+				cfg.PresenceMs = 1000
+				if cfg.ExpiredSubMs == 0 {
+					cfg.ExpiredSubMs = 500
+				}
+			}
+		}
 	}
 	cfg.QueueInitialCap = []int{0, 0, 1, 2}[c.Intn(4)]
 	if prop == "C11" {
